@@ -15,7 +15,7 @@ use crate::{
     parsers::{parse_instant, IxdtfStringBuilder},
     primitive::FiniteF64,
     provider::TimeZoneProvider,
-    rounding::{IncrementRounder, Round},
+    rounding::IncrementRounder,
     time::EpochNanoseconds,
     Calendar, TemporalError, TemporalResult, TemporalUnwrap, TimeZone,
 };
@@ -139,7 +139,7 @@ impl Instant {
         };
 
         let rounded = IncrementRounder::<i128>::from_signed_num(self.as_i128(), increment)?
-            .round(resolved_options.rounding_mode);
+            .round_as_if_positive(resolved_options.rounding_mode);
 
         Ok(rounded)
     }
